@@ -102,14 +102,24 @@ def butter_rules(chk):
                 self_cls=SIG)
     be = r.events("butter")
     chk.ob("R-BP-TYPE", c + "{order keyword}", "the filter_order keyword reaches the design", len(be) == 1 and "p:filter_order" in be[0].order.tags,
-           derived="order tags %s" % (sorted(be[0].order.tags) if be else None), loc=be[0].loc if be else fi.loc())
+           derived="order tags %s" % (sorted(be[0].order.tags) if be else None), loc=be[0].loc if be else fi.loc(),
+           # a constant order is the located wrong instance (the keyword is ignored); an order whose provenance was lost (options merged through a
+           # dict the engine does not follow) is not located
+           inconclusive=(not be) or (len(be) == 1 and not be[0].order.has_const() and "p:filter_order" not in be[0].order.tags))
     # normalisation by the Nyquist frequency: wp = cut_off / (0.5 / dt)
     norm = straightline_env(fi.node.body, Normaliser(), exclude={"cut_off"})
     wcall = [n for n in ast.walk(fi.node) if isinstance(n, ast.Call) and ast.unparse(n.func).split(".")[-1] == "butter"]
     if len(wcall) == 1 and len(wcall[0].args) >= 2:
         p = norm.poly(wcall[0].args[1])
         want = Poly.const(2) * Poly.atom("cut_off") * Poly.atom("self.dt")
-        chk.ob("R-BP-TYPE", c + "{nyquist}", "normalised cut-off = cut_off / (0.5 / dt)", p == want, derived=p.canon(),
+        okn = p == want
+        if not okn and p.is_monomial():
+            (m_, co_), = p.t.items()
+            d_ = dict(m_)
+            others = [a_ for a_ in d_ if a_ != "self.dt"]
+            # the same form with the cut-off held under another local name (which value it is: the {cut-off} typing obligation above)
+            okn = co_ == 2 and d_.get("self.dt") == 1 and len(others) == 1 and d_[others[0]] == 1 and bool(__import__("re").fullmatch(r"[A-Za-z_]\w*", others[0]))
+        chk.ob("R-BP-TYPE", c + "{nyquist}", "normalised cut-off = cut_off / (0.5 / dt)", okn, derived=p.canon(),
                loc=fi.loc(wcall[0]), stmt=norm_stmt(wcall[0]))
     else:
         chk.ob("R-BP-TYPE", c + "{nyquist}", "one butter(...) call", False, derived="%d" % len(wcall), loc=fi.loc(), inconclusive=True)
@@ -179,7 +189,9 @@ def butter_rules(chk):
                        pads[0].args[0].shape == (LinExpr("n"),), derived="np.pad of the record, shape %r" % (pads[0].args[0].shape,), loc=pads[0].loc)
             else:
                 chk.ob("R-BP-LEN", cc + ".window", "the original record is copied into a window of exactly its own length", ok,
-                       derived="%s" % [(e.target_shape, e.value_shape) for e in ss], loc=ss[0].loc if ss else fi.loc(), inconclusive=not ss)
+                       derived="%s" % [(e.target_shape, e.value_shape) for e in ss], loc=ss[0].loc if ss else fi.loc(),
+                       # a window whose extent the engine did not derive (offsets joined over the branches) is not a located wrong window
+                       inconclusive=(not ss) or any(e.target_shape is None or e.value_shape is None or None in tuple(e.target_shape) for e in ss))
             gibbs_alignment(chk, r, cc, fi)
 
 
